@@ -1,5 +1,6 @@
 import Driver.Codec
 import LopdfModel.Model.Pages
+import LopdfModel.Model.PagesMap
 namespace Lopdf.Driver.C12
 open Lopdf Lopdf.Codec
 
@@ -16,6 +17,19 @@ def handle (op : String) (args : List String) : Option String :=
       | k :: rest' =>
         match k.toNat?.bind (fun k => parseObjects k rest') with
         | some (os, []) => showIds (pageIter tr os)
+        | _ => "bad-op"
+      | [] => "bad-op"
+    | _ => "bad-op"
+  | "pagesmap" =>
+    -- `pagesmap <trailer-obj> <k> (<num> <gen> <obj>)*` -> `ok <n> (<page number>=<num>_<gen>)*` : Document::get_pages
+    some <| match parseObj args with
+    | some (.dict tr, rest) =>
+      match rest with
+      | k :: rest' =>
+        match k.toNat?.bind (fun k => parseObjects k rest') with
+        | some (os, []) =>
+          let m := getPagesMap (pageIter tr os)
+          "ok " ++ toString m.length ++ String.join (m.map fun (k, (n, g)) => " " ++ toString k ++ "=" ++ toString n ++ "_" ++ toString g)
         | _ => "bad-op"
       | [] => "bad-op"
     | _ => "bad-op"
